@@ -528,7 +528,7 @@ def effects_of(pkg, fn):
                     continue
                 kind = shared_kind(pkg, fn, root)
                 if not kind and isinstance(sub, ast.Subscript):
-                    kind = class_table_kind(pkg, fn, sub.value)
+                    kind = class_table_kind(pkg, fn, sub.value) or borrowed_attr_kind(pkg, fn, sub.value)
                 if kind and ast.unparse(sub) in restored:
                     continue          # saved before and put back in a finally block of the same function
                 if kind:
@@ -540,7 +540,7 @@ def effects_of(pkg, fn):
         if isinstance(n, ast.Call) and isinstance(n.func, ast.Attribute) and n.func.attr in MUTATORS:
             root, via = _store_root(n.func.value, allow_name=True)
             if root is not None:
-                kind = shared_kind(pkg, fn, root) or class_table_kind(pkg, fn, n.func.value)
+                kind = shared_kind(pkg, fn, root) or class_table_kind(pkg, fn, n.func.value) or borrowed_attr_kind(pkg, fn, n.func.value)
                 if kind:
                     out.append(("global-write", ".%s() on %s (%s)" % (n.func.attr, ast.unparse(n.func.value)[:60], kind), n.lineno))
         if isinstance(n, ast.Call) and isinstance(n.func, ast.Name) and n.func.id == "setattr" and n.args:
@@ -561,6 +561,29 @@ def _restored_in_finally(fnode):
                     for t in st.targets:
                         out.add(ast.unparse(t))
     return out
+
+
+def borrowed_attr_kind(pkg, fn, expr):
+    """expr is `self.attr` and some method of the class binds self.attr to an object the instance did not create: a bare
+    name or attribute chain rooted at a parameter, a module or a class (no call, no display, no copying slice).  Mutating
+    it changes an object that other holders (e.g. the opcode module a table came from) still read."""
+    if not (isinstance(expr, ast.Attribute) and isinstance(expr.value, ast.Name) and expr.value.id == "self" and fn.cls):
+        return None
+    cnode = pkg.classes.get(fn.module, {}).get(fn.cls)
+    if cnode is None:
+        return None
+    for sub in ast.walk(cnode):
+        if isinstance(sub, ast.Assign):
+            for t in sub.targets:
+                if isinstance(t, ast.Attribute) and isinstance(t.value, ast.Name) and t.value.id == "self" and t.attr == expr.attr:
+                    v = sub.value
+                    if isinstance(v, (ast.Name, ast.Attribute)):
+                        root = v
+                        while isinstance(root, ast.Attribute):
+                            root = root.value
+                        if isinstance(root, ast.Name) and root.id != "self" and isinstance(v, ast.Attribute):
+                            return "self.%s is bound to %s without copying (line %d)" % (expr.attr, ast.unparse(v)[:40], sub.lineno)
+    return None
 
 
 def class_table_kind(pkg, fn, expr):
